@@ -20,7 +20,7 @@ tmp = tempfile.mkdtemp(prefix="govc-seed-")
 C = os.path.join(tmp, "repo")
 shutil.copytree(R, C, ignore=shutil.ignore_patterns(".git"))
 def run(cmd, cwd=C, timeout=1500):
-    r = subprocess.run(cmd, cwd=cwd, env=env, capture_output=True, text=True, timeout=timeout)
+    r = subprocess.run(cmd, cwd=cwd, env=env, capture_output=True, text=True, errors="replace", timeout=timeout)
     return r.returncode, (r.stdout + r.stderr)
 meta = {"property": prop, "name": name, "pkgdir": pkgdir}
 try:
